@@ -49,6 +49,8 @@ var shapeIndirect = map[string][2]string{
 	"list": {"T%d = [b]", "[a|T%d]"}, "codes": {"T%d = [0'b]", "[0'a|T%d]"}, "pair_list": {"T%d = [b-2]", "[a-1|T%d]"}, "charlist": {"T%d = \"b\"", "[a|T%d]"},
 	"compound": {"T%d = x", "f(T%d)"}, "callable_cut": {"T%d = !", "(true, T%d)"}, "pi": {"T%d = foo", "T%d/1"}, "minus1": {"T%d = 1", "-(T%d)"},
 	"improper": {"T%d = b", "[a|T%d]"}, "partial": {"T%d = [b|_]", "[a|T%d]"},
+	// partial lists that append/3 makes from a prefix in another representation (these shapes have no direct notation)
+	"app_chars": {"atom_chars(ab, C%d), append(C%d, _, T%d)", "T%d"}, "app_cells": {"C%d = '.'(a, '.'(b, [])), append(C%d, _, T%d)", "T%d"},
 }
 
 var robustPreds map[int][]string
@@ -248,6 +250,7 @@ func robustHandle(c map[string]J) map[string]J {
 	// two variants of every tuple: the arguments written in the goal, and the arguments (or the tail / an argument of them)
 	// reached through variables bound by earlier goals
 	var as, ias, pres []string
+	direct := true
 	for i, a := range args {
 		t := shapeText[a.(string)]
 		if t == "_" {
@@ -256,10 +259,13 @@ func robustHandle(c map[string]J) map[string]J {
 		if a == "partial" {
 			t = fmt.Sprintf("[a|W%d]", i+1) // named, so that the host sees its binding
 		}
+		if a == "app_chars" || a == "app_cells" {
+			direct = false // no direct notation: only the variant with earlier goals
+		}
 		as = append(as, t)
 		if ind, ok := shapeIndirect[a.(string)]; ok {
-			pres = append(pres, fmt.Sprintf(ind[0], i+1))
-			ias = append(ias, fmt.Sprintf(ind[1], i+1))
+			pres = append(pres, strings.ReplaceAll(ind[0], "%d", fmt.Sprint(i+1)))
+			ias = append(ias, strings.ReplaceAll(ind[1], "%d", fmt.Sprint(i+1)))
 		} else if a == "var" {
 			ias = append(ias, fmt.Sprintf("V%d", i+1))
 		} else {
@@ -274,6 +280,9 @@ func robustHandle(c map[string]J) map[string]J {
 			goal := jt.Atom(name)
 			if len(av) > 0 {
 				goal += "(" + strings.Join(av, ", ") + ")"
+			}
+			if variant == 0 && !direct {
+				continue
 			}
 			if variant == 1 {
 				if len(pres) == 0 {
